@@ -1499,3 +1499,75 @@ Section AtPoint.
     exact (map_nth cell names EmptyString j).
   Qed.
 End AtPoint.
+
+(* ------------------------------------------------------------------ aggregation and scaling *)
+From BV Require Import Model.Pack.
+
+Lemma is_derive_rsum {A} (f : A -> R -> R) (f' : A -> R) (l : list A) (x : R) :
+  (forall a, In a l -> is_derive (f a) x (f' a)) ->
+  is_derive (fun t => rsum (map (fun a => f a t) l)) x (rsum (map f' l)).
+Proof.
+  induction l as [|a l IH]; cbn [map rsum fold_right]; intros H.
+  - apply @is_derive_const.
+  - apply (is_derive_plus (f a) (fun t => rsum (map (fun a0 => f a0 t) l)) x (f' a) (rsum (map f' l))).
+    + apply H. left; reflexivity.
+    + apply IH. intros a0 Ha. apply H. right; exact Ha.
+Qed.
+
+Section Aggregate.
+  Variable Phi : R -> R.
+  Hypothesis Phi_derive : forall x, is_derive Phi x (D2R inv_sqrt_2pi * exp (- (x * x / 2))).
+  Notation ev := (evalX Phi).
+
+  (* T02e: the sum over the observations of the per-observation derivative values is the
+     derivative of the aggregated value (sum over the observations), for the gradient ... *)
+  Theorem aggregate_gradient ws w x0 e (rows : list env) :
+    In w ws ->
+    (forall r, In r rows -> wrt_val r w = Some x0 /\ dom Phi ws r e) ->
+    is_derive (fun x => rsum (map (fun r => valR (ev e (upd r w x))) rows)) x0
+              (rsum (map (fun r => valR (ev (D w e) r)) rows)).
+  Proof.
+    intros Hw Hr. apply (is_derive_rsum (fun r x => valR (ev e (upd r w x))) (fun r => valR (ev (D w e) r))).
+    intros r Hin. destruct (Hr r Hin) as [Hv Hd].
+    exact (D_correct_at Phi Phi_derive ws r w x0 e Hw Hv Hd).
+  Qed.
+
+  (* ... and for the Hessian *)
+  Theorem aggregate_hessian ws w w' x0 x0' e (rows : list env) :
+    In w ws -> In w' ws ->
+    (forall r, In r rows -> wrt_val r w = Some x0 /\ wrt_val r w' = Some x0' /\ dom Phi ws r e) ->
+    is_derive (fun x => rsum (map (fun r => valR (ev (D w e) (upd r w' x))) rows)) x0'
+              (rsum (map (fun r => valR (ev (D w' (D w e)) r)) rows)).
+  Proof.
+    intros Hw Hw' Hr.
+    apply (is_derive_rsum (fun r x => valR (ev (D w e) (upd r w' x))) (fun r => valR (ev (D w' (D w e)) r))).
+    intros r Hin. destruct (Hr r Hin) as (Hv & Hv' & Hd).
+    exact (hess_correct Phi Phi_derive ws r w w' x0 x0' e Hw Hw' Hv Hv' Hd).
+  Qed.
+End Aggregate.
+
+(* T02g: scaling by 1/N commutes with differentiation *)
+Theorem scaling_linear (f : R -> R) (x0 d N : R) :
+  is_derive f x0 d -> is_derive (fun x => f x / N) x0 (d / N).
+Proof.
+  intros H. unfold Rdiv.
+  apply (is_derive_ext (fun x => scal (/ N) (f x))).
+  - intros t. unfold scal; cbn; unfold mult; cbn. ring.
+  - replace (d * / N) with (scal (/ N) d) by (unfold scal; cbn; unfold mult; cbn; ring).
+    apply @is_derive_scal. exact H.
+Qed.
+
+(* ------------------------------------------------------------------ non-vacuity of the hypothesis on Phi *)
+Lemma Phi_exists : exists Phi : R -> R,
+  forall x, is_derive Phi x (D2R inv_sqrt_2pi * exp (- (x * x / 2))).
+Proof.
+  set (f := fun t : R => D2R inv_sqrt_2pi * exp (- (t * t / 2))).
+  assert (Hc : forall z, continuous f z).
+  { intros z. apply (ex_derive_continuous (K:=R_AbsRing) (V:=R_NormedModule) f z).
+    unfold f. auto_derive. exact I. }
+  exists (fun b => RInt f 0 b). intros x.
+  apply (is_derive_RInt f (fun b => RInt f 0 b) 0 x).
+  - apply filter_forall. intros b. apply (@RInt_correct R_CompleteNormedModule).
+    apply (@ex_RInt_continuous R_CompleteNormedModule). intros z _. apply Hc.
+  - apply Hc.
+Qed.
